@@ -5,7 +5,6 @@ import (
 	"go/token"
 	"go/types"
 	"math/big"
-	"regexp"
 	"sort"
 	"strings"
 
@@ -566,35 +565,35 @@ func c09(r *core.Run) {
 			if !isValueOf(reduce.Params[1])(args[3]) {
 				o.Fail(p.InstrPos(cl), "Reduce does not hand the buckets to the caller's function")
 			}
-			cnt := core.Forward(args[2])
-			var edges []ssa.Value
-			var blocks []*ssa.BasicBlock
-			if phi, ok := cnt.(*ssa.Phi); ok {
-				for i, e := range phi.Edges {
-					edges, blocks = append(edges, e), append(blocks, phi.Block().Preds[i])
-				}
-			} else {
-				edges, blocks = []ssa.Value{cnt}, []*ssa.BasicBlock{nil}
-			}
+			// the count is a finite case split over the φ-nodes it is built from, wherever
+			// they sit: `diff = φ(size−1, size−span)` and `size − φ(1, span)` are the same
+			// two cases, each chosen through a predecessor block of the φ
 			full := core.ParsePoly("size - span")
 			seenFull := false
-			for i, e := range edges {
-				g := a.Norm(e)
+			for _, cs := range casesOf(a, args[2]) {
+				g := cs.val
 				switch {
 				case g.Equal(full):
 					seenFull = true
 				case g.Equal(core.ParsePoly("size - 1")), g.Equal(core.ParsePoly("size - span - 1")):
 					// only when span == 0 and ignoreCurrent
-					b := blocks[i]
-					if b == nil {
+					if len(cs.via) == 0 {
 						o.Fail(p.InstrPos(cl), "Reduce always skips a bucket")
 						continue
 					}
-					inB := func(in ssa.Instruction) bool { return in.Block() == b }
-					if w := core.Requires(reduce, inB, spanZero); w != nil {
+					guarded := func(at core.Atom) bool {
+						for _, b := range cs.via {
+							b := b
+							if core.Requires(reduce, func(in ssa.Instruction) bool { return in.Block() == b }, at) == nil {
+								return true
+							}
+						}
+						return false
+					}
+					if !guarded(spanZero) {
 						o.Fail(p.InstrPos(cl), "the current bucket is skipped although the window has moved on (span ≠ 0): a complete bucket is lost")
 					}
-					if w := core.Requires(reduce, inB, ignore); w != nil {
+					if !guarded(ignore) {
 						o.Fail(p.InstrPos(cl), "the current bucket is skipped although ignoreCurrent is not set")
 					}
 				default:
@@ -633,7 +632,7 @@ func c09(r *core.Run) {
 					}
 				}
 			case *ssa.Phi:
-				if _, ok := countingLoopEx(x); ok {
+				if _, ok := indexLoopOf(x); ok {
 					return "i"
 				}
 			case *ssa.Call:
@@ -643,27 +642,22 @@ func c09(r *core.Run) {
 			}
 			return ""
 		}}
-		// loopOf finds the counting loop i = init; i < bound (or <=); i++ that idx runs over and
-		// returns its start and its trip count as a normal form.
-		loopOf := func(idx ssa.Value) (init int64, trips core.Poly, ok bool) {
+		// loopOf finds the index loop that idx runs over and returns the closed interval [lo, hi]
+		// of the values its variable takes in the body, whatever the loop's direction and spelling.
+		loopOf := func(idx ssa.Value) (lo, hi core.Poly, ok bool) {
+			n := 0
 			core.DependsOn(idx, func(v ssa.Value) bool {
 				if phi, isPhi := v.(*ssa.Phi); isPhi {
-					if lp, isLoop := countingLoopEx(phi); isLoop {
-						init, ok = lp.init, true
-						trips = a.Norm(lp.bound).Sub(core.PInt(lp.init))
-						if lp.inclusive {
-							trips = trips.Add(core.PInt(1))
-						}
+					if lp, isLoop := indexLoopOf(phi); isLoop {
+						lo, hi = lp.bounds(a)
+						n++
 					}
 				}
 				return false
 			})
-			return
+			return lo, hi, n == 1
 		}
-		shifted := func(form string, init int64) core.Poly {
-			// the formula is written for i = 0 …; a loop starting at init visits i − init
-			return core.ParsePoly(loopVarRe.ReplaceAllString(form, fmt.Sprintf("(i - %d)", init)))
-		}
+		mod := func(x core.Poly, m string) core.Poly { return polyFn("mod", x, core.ParsePoly(m)) }
 		// element address &buckets[idx] → idx
 		bucketIndex := func(v ssa.Value) ssa.Value {
 			u, ok := v.(*ssa.UnOp)
@@ -692,12 +686,17 @@ func c09(r *core.Run) {
 			for _, rc := range rs {
 				n++
 				idx := core.Args(rc)[1]
-				init, trips, ok := loopOf(idx)
-				if !ok || !trips.Equal(core.ParsePoly("span")) {
-					o.Fail(p.InstrPos(rc), "the expiry loop does not reset span buckets (trip count %v)", trips)
+				// the SET of buckets reset is {(offset+1+j) mod size : j < span}; the resets are
+				// independent of each other, so neither the direction nor the start of the loop matters
+				lo, hi, ok := loopOf(idx)
+				if !ok {
+					o.Fail(p.InstrPos(rc), "the expired buckets are not reset by a loop over a contiguous index range (bucket %s)", a.Norm(idx))
+					continue
 				}
-				if got, want := a.Norm(idx), shifted("mod(offset + i + 1, size)", init); !got.Equal(want) {
-					o.Fail(p.InstrPos(rc), "expiry resets bucket %s, expected %s", got, want)
+				if diff := sameIndexSet(a.Norm(idx), lo, hi, func(j core.Poly) core.Poly {
+					return mod(core.ParsePoly("offset + 1").Add(j), "size")
+				}, core.ParsePoly("span")); diff != "" {
+					o.Fail(p.InstrPos(rc), "the expiry loop does not reset exactly the span expired buckets: it %s", diff)
 				}
 			}
 		}
@@ -742,16 +741,26 @@ func c09(r *core.Run) {
 				o.Fail(p.InstrPos(cs[0]), "%s does not %s an element of the ring", core.FuncName(w.f), w.what)
 				continue
 			}
-			init := int64(0)
 			if w.what == "visit" {
-				i0, trips, ok := loopOf(idx)
-				if !ok || !trips.Equal(core.ParsePoly("arg2")) {
-					o.Fail(p.InstrPos(cs[0]), "%s does not visit count buckets (trip count %v)", core.FuncName(w.f), trips)
+				// visits {(start+j) mod size : j < count}, however the loop is spelled
+				lo, hi, ok := loopOf(idx)
+				if !ok {
+					o.Fail(p.InstrPos(cs[0]), "%s does not visit the buckets by a loop over a contiguous index range (bucket %s)", core.FuncName(w.f), a.Norm(idx))
+					continue
 				}
-				init = i0
-			}
-			if got, want := a.Norm(idx), shifted(w.idx, init); !got.Equal(want) &&
-				!got.Equal(shifted(strings.ReplaceAll(w.idx, "wsize", "len(wbuckets)"), init)) {
+				var diff string
+				for _, sz := range []string{"wsize", "len(wbuckets)"} {
+					if diff = sameIndexSet(a.Norm(idx), lo, hi, func(j core.Poly) core.Poly {
+						return mod(core.ParsePoly("arg1").Add(j), sz)
+					}, core.ParsePoly("arg2")); diff == "" {
+						break
+					}
+				}
+				if diff != "" {
+					o.Fail(p.InstrPos(cs[0]), "%s does not visit exactly count buckets from start: it %s", core.FuncName(w.f), diff)
+				}
+			} else if got, want := a.Norm(idx), core.ParsePoly(w.idx); !got.Equal(want) &&
+				!got.Equal(core.ParsePoly(strings.ReplaceAll(w.idx, "wsize", "len(wbuckets)"))) {
 				o.Fail(p.InstrPos(cs[0]), "%s addresses bucket %s, expected %s", core.FuncName(w.f), got, want)
 			}
 			if w.what == "add" {
@@ -1441,69 +1450,6 @@ func c09(r *core.Run) {
 			o.Fail(loadPkg, "expected two Add sites, two reductions and their closures, found %d sites", n)
 		}
 	})
-}
-
-var loopVarRe = regexp.MustCompile(`\bi\b`)
-
-// loopShape describes i := init; i < bound (or i <= bound); i++.
-type loopShape struct {
-	init      int64
-	bound     ssa.Value
-	inclusive bool
-}
-
-// countingLoopEx recognises an upward counting loop on the φ of its induction variable.
-func countingLoopEx(phi *ssa.Phi) (loopShape, bool) {
-	var lp loopShape
-	if len(phi.Edges) != 2 {
-		return lp, false
-	}
-	haveInit, step := false, false
-	for _, e := range phi.Edges {
-		if z, isC := core.ConstInt(e); isC {
-			lp.init, haveInit = z, true
-			continue
-		}
-		if b, isB := e.(*ssa.BinOp); isB && b.Op == token.ADD {
-			if one, isC := core.ConstInt(b.Y); isC && one == 1 && b.X == ssa.Value(phi) {
-				step = true
-			}
-			if one, isC := core.ConstInt(b.X); isC && one == 1 && b.Y == ssa.Value(phi) {
-				step = true
-			}
-		}
-	}
-	if !haveInit || !step {
-		return lp, false
-	}
-	blk := phi.Block()
-	iff, isIf := blk.Instrs[len(blk.Instrs)-1].(*ssa.If)
-	if !isIf {
-		return lp, false
-	}
-	c, isB := iff.Cond.(*ssa.BinOp)
-	if !isB {
-		return lp, false
-	}
-	// the loop continues on the true edge while i OP bound
-	op := c.Op
-	switch {
-	case c.X == ssa.Value(phi):
-		lp.bound = c.Y
-	case c.Y == ssa.Value(phi):
-		lp.bound = c.X
-		op = flipCmp(op)
-	default:
-		return lp, false
-	}
-	switch op {
-	case token.LSS:
-	case token.LEQ:
-		lp.inclusive = true
-	default:
-		return lp, false
-	}
-	return lp, true
 }
 
 func sortedFuncs(m map[*ssa.Function]bool) []*ssa.Function {
